@@ -145,6 +145,7 @@ pub struct World {
     /// skip the per-op result rules (used by very long runs which check them at chosen points only)
     pub light: bool,
     undecided: Vec<usize>,
+    pub sub_ids_seen: std::collections::HashMap<u32, usize>,
 }
 
 #[derive(Default, Clone, Debug)]
@@ -254,6 +255,7 @@ impl World {
             ids_outstanding: std::collections::HashMap::new(),
             light: false,
             undecided: Vec::new(),
+            sub_ids_seen: std::collections::HashMap::new(),
         };
         if w.connack_sum.is_none() {
             w.viol(P_ANY, "boot/connect-failed".into(), format!("connect() did not return ConnectRsp: {:?}", w.sim.last_ctx_result("connect")));
@@ -1013,9 +1015,12 @@ impl World {
                     match sid {
                         None => self.viol(P_C11, "C11/subscribe-without-subscription-id".into(), format!("op{i}: SUBSCRIBE carries no subscription identifier")),
                         Some(v) => {
-                            if let Some((j, _)) = self.m.iter().enumerate().find(|(j, o)| *j != i && o.kind == Kind::Sub && o.sub_id == Some(v)) {
-                                self.viol(P_C11, "C11/duplicate-subscription-id".into(), format!("op{i}: subscription identifier {v} already used by op{j}"));
+                            if let Some(&j) = self.sub_ids_seen.get(&v) {
+                                if j != i {
+                                    self.viol(P_C11, "C11/duplicate-subscription-id".into(), format!("op{i}: subscription identifier {v} already used by op{j}"));
+                                }
                             }
+                            self.sub_ids_seen.insert(v, i);
                         }
                     }
                     self.m[i].sub_id = sid;
@@ -1070,7 +1075,10 @@ impl World {
                 }
                 CPacket::Ack(a) => match a.kind {
                     AckKind::Pubrel => {
-                        let cand = self.m.iter().position(|o| o.kind == Kind::Pub2 && o.pkt_id == Some(a.id) && o.req_wire.is_some() && !o.ack2 && o.rel_wire.is_none() && o.ack1);
+                        let cand = self.ids_outstanding.get(&a.id).copied().filter(|&j| {
+                            let o = &self.m[j];
+                            o.kind == Kind::Pub2 && o.pkt_id == Some(a.id) && o.req_wire.is_some() && !o.ack2 && o.rel_wire.is_none() && o.ack1
+                        });
                         match cand {
                             Some(i) if self.m[i].ack1_ok => {
                                 self.m[i].rel_wire = Some(wi);
@@ -1082,6 +1090,11 @@ impl World {
                                 self.viol(P_C06, "C06/pubrel-after-failed-pubrec".into(), format!("op{i}: PUBREL id {} sent although PUBREC carried a failure reason", a.id));
                             }
                             None => {
+                                let failed = self.m.iter().rposition(|o| o.kind == Kind::Pub2 && o.pkt_id == Some(a.id) && o.req_wire.is_some() && o.ack1 && !o.ack1_ok);
+                                if let Some(i) = failed {
+                                    self.viol(P_C06, "C06/pubrel-after-failed-pubrec".into(), format!("op{i}: PUBREL id {} sent although PUBREC carried a failure reason", a.id));
+                                    continue;
+                                }
                                 let early = self.m.iter().position(|o| o.kind == Kind::Pub2 && o.pkt_id == Some(a.id) && o.req_wire.is_some() && !o.ack1);
                                 let dupl = self.m.iter().position(|o| o.kind == Kind::Pub2 && o.pkt_id == Some(a.id) && o.rel_wire.is_some() && !o.ack2);
                                 if let Some(i) = early {
